@@ -505,11 +505,60 @@ def gen_hash_sites():
     return "\n".join(L) + "\n", f"{len(sites)} hash-typed bindings, {sum(1 for s in sites if s[3])} iterated"
 
 
+# ---------------------------------------------------------------------------------------------------
+# C17 port: the `topo_sort` transcription of project HvGraphAlg (C17) and its correctness proof are copied
+# verbatim into this project on every run (so `TopoSpec` is a theorem here, about the very transcription
+# that C17's own correspondence check ties to graph_algorithms.rs).
+
+C17 = os.path.join(os.path.dirname(HERE), "HvGraphAlg", "HvGraphAlg")
+C17_HEAD = "-- COPIED on every run from lean/HvGraphAlg/HvGraphAlg/%s by lean/HvPart/tools/translate.py — do not edit\n"
+
+
+def c17_read(rel):
+    try:
+        return open(os.path.join(C17, rel)).read()
+    except OSError as ex:
+        raise TErr(f"cannot read C17 file {rel}: {ex}")
+
+
+def gen_c17_model():
+    src = c17_read("Model/Topo.lean")
+    if re.search(r"^import ", src, re.M):
+        raise TErr("C17 Model/Topo.lean is no longer import-free")
+    if "def topoSort (n : Nat) (ids : List Nat) (preds : Nat → List Nat) : TopoResult" not in src:
+        raise TErr("C17 Model/Topo.lean: signature of topoSort changed")
+    return C17_HEAD % "Model/Topo.lean" + src, "C17 topo_sort transcription"
+
+
+def gen_c17_proofs():
+    src = c17_read("Proofs/Topo.lean")
+    if src.count("import HvGraphAlg.Model.Topo\n") != 1 or len(re.findall(r"^import ", src, re.M)) != 1:
+        raise TErr("C17 Proofs/Topo.lean: unexpected imports")
+    return C17_HEAD % "Proofs/Topo.lean" + src.replace("import HvGraphAlg.Model.Topo\n", "import HvPart.C17.Topo\n"), "C17 topo_sort proofs"
+
+
+def gen_c17_thms():
+    src = c17_read("Props/C17.lean")
+    a = src.find("/-! ## `topo_sort` -/")
+    b = src.find("/-- `topo_sort` succeeds exactly when the part of the graph it visits is acyclic. -/")
+    if a < 0 or b < a:
+        raise TErr("C17 Props/C17.lean: topo_sort section markers not found")
+    body = src[a:b]
+    for need in ("structure Bounded", "theorem topoSort_total", "theorem topoSort_ok_respects_edges", "theorem topoSort_err_is_cycle"):
+        if need not in body:
+            raise TErr(f"C17 Props/C17.lean: `{need}` not in the topo_sort section")
+    # helper/auxiliary status: everything copied is re-proved here; the property theorems of this project use them
+    return (C17_HEAD % "Props/C17.lean (topo_sort section)" + "import HvPart.C17.TopoProofs\nnamespace HvGraphAlg\n\n" + body
+            + "\nend HvGraphAlg\n"), "C17 topo_sort theorems"
+
+
 def run(which=("color", "catalogue", "hash")):
     """-> [(name, ok, detail)]"""
     res = []
     jobs = {"color": ("Gen/Color.lean", gen_color), "catalogue": ("Gen/Catalogue.lean", gen_catalogue),
-            "hash": ("Gen/HashSites.lean", gen_hash_sites)}
+            "hash": ("Gen/HashSites.lean", gen_hash_sites),
+            "c17model": ("C17/Topo.lean", gen_c17_model), "c17proofs": ("C17/TopoProofs.lean", gen_c17_proofs),
+            "c17thms": ("C17/TopoThms.lean", gen_c17_thms)}
     for w in which:
         rel, fn = jobs[w]
         try:
